@@ -12,6 +12,9 @@ R4  unassigned nxt[] slots never reach the output: (a) every load of nxt[e] is p
     implies chk[e] != 0 or by a store to nxt[e], with e unchanged in between; (b) every store to chk[e] is paired with a
     store to nxt[e] (reviewed markers excepted); (c) every (re)allocation of chk is followed by a zero fill of the new
     region before chk is used.
+R6  slot 0 of 1-based heap arrays: every global array allocated with a non-zeroing allocator that some function reads at
+    index 0 (constant 0, a counter starting at 0, a parameter a caller passes 0 for) has a store to slot 0 in code that runs
+    earlier in flex_main's call order and under option tests the reader is also under.  Unclassifiable indices are exit 2.
 R5  the output location does not influence the content: env.use_stdout steers only the freopen decision in
     check_options() and one letter of the -v statistics on stderr.
 """
@@ -598,6 +601,215 @@ def r5b(prog, rep):
                         rep.ok('C18.R5', '%s: %s() under env.did_outfilename precedes the first skelout(): the line-directive hook is not defined yet' % (where(x), x.callee))
     return n
 
+# ================================================================ R6  slot 0 of heap arrays
+
+# flex (re)allocates its tables with realloc-style functions (uninitialised memory) and indexes most of them from 1.
+# Wherever a function reads such an array at index 0 - by a constant, by a loop counter that starts at 0, or through a
+# parameter some caller passes 0 for - slot 0 must have been stored by code that runs before and under the same options.
+HEAP_ALLOCATORS = ('allocate_array', 'reallocate_array', 'malloc', 'realloc', 'reallocarray')
+R6_COVERED_ELSEWHERE = {
+    'chk': 'zero-filled after every (re)allocation: C18.R4(c)',
+    'nxt': 'every load is preceded by a chk[e] != 0 edge or a store to nxt[e]: C18.R4(a)',
+}
+
+def heap_arrays(prog):
+    """{global: [allocation store]} for global pointers assigned the result of a non-zeroing allocator"""
+    out = {}; zeroed = set()
+    for f in fns(prog):
+        res = Resolver(f)
+        for x in f.ins:
+            if x.op != 'store': continue
+            l = res.loc(x.ops[1])
+            if l[0] != 'global': continue
+            d = f.def_of(flow.strip_casts(f, x.ops[0]))
+            if d is not None and d.op == 'call' and isinstance(d.callee, str):
+                if d.callee in HEAP_ALLOCATORS: out.setdefault(l[1], []).append(x)
+                elif d.callee == 'calloc': zeroed.add(l[1])
+    return out
+
+def heap_elem(f, ptr, res, arrays):
+    """(global, index value) when ptr addresses G[idx] (optionally a member of that element), G a heap array"""
+    v = flow.strip_casts(f, ptr)
+    for _ in range(6):
+        d = f.def_of(v)
+        if d is None or d.op != 'getelementptr' or len(d.ops) < 2: return None
+        b = f.def_of(flow.strip_casts(f, d.ops[0]))
+        if b is not None and b.op == 'load':
+            l = res.loc(b.ops[0])
+            if l[0] == 'global' and l[1] in arrays: return (l[1], d.ops[1])
+            return None
+        if d.ops[1] == ('int', 0): v = flow.strip_casts(f, d.ops[0]); continue      # member of a struct/union element
+        return None
+    return None
+
+def _index_leaves(f, v, res, depth=0, out=None):
+    """leaves of an index expression: ('const',) ('counter', local) ('param', local) ('data', why)"""
+    if out is None: out = []
+    if depth > 30: out.append(('data', 'deep')); return out
+    if v[0] == 'int': out.append(('const',)); return out
+    d = f.def_of(v)
+    if d is None: out.append(('data', 'value')); return out
+    if d.op in ('sext', 'zext', 'trunc', 'add', 'sub', 'mul', 'shl'):
+        for o in d.ops: _index_leaves(f, o, res, depth + 1, out)
+    elif d.op == 'load':
+        l = res.loc(d.ops[0])
+        if l[0] == 'local' and l[1].endswith('.addr') and f.is_param(l[1][:-5]): out.append(('param', l))
+        elif l[0] == 'local': out.append(('counter', l))
+        else: out.append(('data', ir.loc_str(l)))
+    else: out.append(('data', d.op))
+    return out
+
+def index_class(prog, f, idx, at, res):
+    """('zero', how, events) | ('nonzero',) | ('data',) | ('unknown', why) for the index idx used at instruction `at`.
+    events: for a parameter index, the call sites that pass the constant making it 0."""
+    cfg = prog.cfg(f)
+    leaves = _index_leaves(f, idx, res)
+    if any(k[0] == 'data' for k in leaves): return ('data',)
+    li = lin(f, idx, res)
+    if li is None: return ('unknown', 'the index is not linear in its loop counters')
+    k0 = li.get(1, 0); atoms = {a: c for a, c in li.items() if a != 1}
+    if not atoms: return ('zero', 'constant index 0', None) if k0 == 0 else ('nonzero',)
+    def local_defs(atom):
+        """what reaches `at` for local atom: (constants, steps, data?, problem)"""
+        v = atom[1]
+        stores = [x for x in f.ins if x.op == 'store' and flow._freeze(res.loc(x.ops[1])) == v]
+        consts = []; steps = []; data = False
+        for st in stores:
+            if at not in cfg.reach(st, avoid=[y for y in stores if y is not st]): continue
+            l2 = lin(f, st.ops[0], res)
+            lv = _index_leaves(f, st.ops[0], res)
+            if any(k[0] in ('data', 'param') for k in lv) or l2 is None: data = True
+            elif set(l2) <= {1}: consts.append(l2.get(1, 0))
+            elif set(l2) <= {1, atom} and l2.get(atom) == 1: steps.append(l2.get(1, 0))
+            else:
+                # assigned from other locals: data if any of them is data at that point
+                sub = index_class(prog, f, st.ops[0], st, res)
+                if sub[0] == 'data': data = True
+                elif sub[0] == 'unknown': return (consts, steps, data, sub[1])
+                elif sub[0] == 'zero': consts.append(0)
+                else: consts.append(1)       # some value that is never 0
+        allc = [z.get(1, 0) for z in (lin(f, y.ops[0], res) for y in stores) if z is not None and set(z) <= {1}]
+        return (consts, steps, data, None, allc)
+    if len(atoms) == 1 and list(atoms.values()) == [1]:
+        atom = next(iter(atoms)); v = atom[1]
+        if v[1].endswith('.addr') and f.is_param(v[1][:-5]):
+            stores = [x for x in f.ins if x.op == 'store' and flow._freeze(res.loc(x.ops[1])) == v]
+            if len(stores) != 1: return ('data',)
+            pi = [i for i, (_, nm) in enumerate(f.params) if nm == v[1][:-5]][0]
+            sites = [c for c in prog.callers(f.name) if len(c.ops) > pi and c.ops[pi][0] == 'int' and c.ops[pi][1] + k0 == 0]
+            if sites: return ('zero', 'parameter %s is 0 at %s' % (v[1][:-5], where(sites[0])), sites)
+            return ('data',)
+    if any(a[1][1].endswith('.addr') and f.is_param(a[1][1][:-5]) for a in atoms): return ('data',)
+    lo = k0; direct_zero = None; names = []
+    for atom, coeff in atoms.items():
+        d = local_defs(atom)
+        if d[3]: return ('unknown', d[3])
+        consts, steps, data, _, allc = d
+        if data: return ('data',)
+        if coeff < 0: return ('unknown', 'counter %s enters the index negatively' % atom[1][1])
+        if any(st < 0 for st in steps): return ('unknown', 'counter %s is decremented' % atom[1][1])
+        names.append(atom[1][1])
+        # smallest value the counter can have here: a constant that reaches directly, or any start plus one step
+        cand = list(consts) + ([min(allc) + min(steps)] if steps and allc else [])
+        if not cand: return ('data',)
+        lo += coeff * min(cand)
+        if len(atoms) == 1 and any(c_ + k0 == 0 for c_ in consts): direct_zero = 'counter %s starts at %d' % (atom[1][1], -k0)
+    if direct_zero: return ('zero', direct_zero, None)
+    if lo > 0: return ('nonzero',)
+    if lo == 0: return ('zero', 'counters %s start at values that add up to index 0' % '+'.join(names), None)
+    return ('zero', 'index %s can start below 0 and is incremented' % '+'.join(names), None)
+
+FLAG_STRUCTS = ('ctrl_bundle_t', 'env_bundle_t')
+
+def flag_conditions(prog, f, ins, res):
+    """(flags, other): flags = {(location class, polarity)} of option tests that control ins; other = number of
+    controlling conditions that are not plain option tests (loop bounds, data tests)"""
+    cfg = prog.cfg(f, cut=False); flags = set(); other = 0
+    for br, t in cfg.control_deps_closure(ins.blk):
+        te = truth_edges(f, br)
+        d = f.def_of(flow.int_origin(f, te[0])) if te is not None else None
+        c = cls(prog, res.loc(d.ops[0])) if d is not None and d.op == 'load' else None
+        if c is not None and ((c[0] == 'field' and c[1] in FLAG_STRUCTS) or (c[0] == 'global' and c[1] in ('tablesext', 'gentables', 'reject'))):
+            flags.add((c, t is f.bmap[te[1]]))
+        else: other += 1
+    return flags, other
+
+def top_calls(prog, fname):
+    """calls in flex_main that (transitively) lead to function fname"""
+    fm = prog.fn('flex_main')
+    if fm is None: return []
+    return [x for x in fm.ins if x.op == 'call' and isinstance(x.callee, str) and fname in reach_fns(prog, [x.callee])]
+
+def r6(prog, rep, covered=R6_COVERED_ELSEWHERE, anchors=True):
+    from common import AnalysisBroken
+    arrays = heap_arrays(prog)
+    if anchors and len(arrays) < 30: rep.broken('C18.R6: only %d heap-allocated global arrays found' % len(arrays))
+    readers = {}     # (g, fn) -> [(load, how)]
+    events = {}      # g -> [(fn, instruction, how)]
+    unknown = []
+    nacc = 0
+    for f in fns(prog):
+        res = Resolver(f)
+        for x in f.ins:
+            if x.op not in ('load', 'store'): continue
+            ea = heap_elem(f, x.ops[0] if x.op == 'load' else x.ops[1], res, arrays)
+            if ea is None: continue
+            nacc += 1
+            c = index_class(prog, f, ea[1], x, res)
+            if c[0] == 'unknown':
+                unknown.append('%s[..] at %s: %s' % (ea[0], where(x), c[1])); continue
+            if c[0] != 'zero': continue
+            if x.op == 'load': readers.setdefault((ea[0], f), []).append((x, c[1]))
+            elif c[2]:
+                for site in c[2]: events.setdefault(ea[0], []).append((site.fn, site, '%s[%s] in %s() with %s' % (ea[0], f.params and 'param' or '0', f.name, c[1])))
+            else: events.setdefault(ea[0], []).append((f, x, '%s[0] stored in %s()@%s (%s)' % (ea[0], f.name, x.line, c[1])))
+    if unknown:
+        raise AnalysisBroken('C18.R6: %d accesses to heap arrays have an index that cannot be classified as 0 / never 0 / data: %s' % (len(unknown), '; '.join(unknown[:4])))
+    n = 0
+    fm = prog.fn('flex_main'); fcfg = prog.cfg(fm) if fm is not None else None
+    for (g, f), lds in sorted(readers.items(), key=lambda kv: (kv[0][0], kv[0][1].name)):
+        n += 1
+        kk = key('C18.R6', f, '%s[0]' % g)
+        x, how = lds[0]
+        if g in covered:
+            rep.ok('C18.R6', '%s reads %s[0]@%s (%s): %s' % (f.name, g, x.line, how, covered[g])); continue
+        evs = events.get(g, [])
+        if not evs:
+            rep.fail('C18.R6', kk, where(x), '%s() reads %s[0] (%s) but nothing in flex ever stores slot 0 of %s, which is allocated uninitialised (%s): '
+                     'the generated tables would contain whatever the heap held' % (f.name, g, how, g, ', '.join(sorted({s.fn.name for s in arrays[g]}))),
+                     replay_input='flex -CF x.l twice under different MALLOC_PERTURB_ values; compare yy_transition')
+            continue
+        res = Resolver(f)
+        rflags, _ = flag_conditions(prog, f, x, res)
+        callers = prog.callers(f.name)
+        cf = None
+        for c in callers:
+            fl, _o = flag_conditions(prog, c.fn, c, Resolver(c.fn))
+            cf = fl if cf is None else (cf & fl)
+        rflags |= (cf or set())
+        verdicts = []
+        for ef, ei, what in evs:
+            eflags, other = flag_conditions(prog, ef, ei, Resolver(ef))
+            if other: verdicts.append(('cond', what)); continue
+            # order: the event's function runs before the reader's
+            tr = top_calls(prog, f.name); te_ = top_calls(prog, ef.name) if ef is not fm else [ei]
+            if fm is None or not tr or not te_: verdicts.append(('order?', what)); continue
+            before = all(any(y is not t and fcfg.ins_dominates(y, t) for y in te_) for t in tr)
+            if not before: verdicts.append(('order', what)); continue
+            if not eflags <= rflags:
+                verdicts.append(('flags', '%s, but only under %s' % (what, ', '.join('%s%s' % ('' if pol else '!', c_[-1]) for c_, pol in sorted(eflags - rflags, key=str))))); continue
+            verdicts.append(('ok', what))
+        good = [w for v_, w in verdicts if v_ == 'ok']
+        if good:
+            rep.ok('C18.R6', '%s reads %s[0]@%s (%s): %s, which runs earlier under the same options' % (f.name, g, x.line, how, good[0]))
+        elif any(v_ in ('flags', 'order') for v_, _ in verdicts):
+            w = [w for v_, w in verdicts if v_ in ('flags', 'order')][0]
+            rep.fail('C18.R6', kk, where(x), '%s() reads %s[0] (%s); the only stores to slot 0 do not cover that read: %s' % (f.name, g, how, w))
+        else:
+            raise AnalysisBroken('C18.R6: cannot decide whether %s[0] is stored before %s() reads it (%s)' % (g, f.name, '; '.join('%s: %s' % v_ for v_ in verdicts[:3])))
+    rep.note('C18.R6: %d element accesses of %d heap arrays classified; %d (array, reader) pairs read slot 0' % (nacc, len(arrays), n))
+    return n
+
 # ================================================================ controls / driver
 
 def controls(ctx):
@@ -612,6 +824,8 @@ def controls(ctx):
     expect_control(ctx, 'C18.R4', c, ['bad_reader:nxt-load', 'bad_reader_changed_index:nxt-load', 'bad_marker:chk-store', 'bad_expand:chk-alloc'], must_hold=4)
     c = Collect(); r5(p, c, readers={})
     expect_control(ctx, 'C18.R5', c, ['content_depends:effect-use_stdout'], must_hold=1)
+    c = Collect(); r6(p, c, covered={}, anchors=False)
+    expect_control(ctx, 'C18.R6', c, ['dump_acc:dfaacc[0]', 'dump_wrongopt:accsiz[0]'], must_hold=2)
 
 def run(ctx):
     rep = ctx.rep; prog = ctx.flex
@@ -621,7 +835,7 @@ def run(ctx):
         rep.require(prog.fn(a) is not None, 'anchored function %s() not found in flex' % a)
     controls(ctx)
     c = {}
-    c['R1'] = r1(prog, rep); c['R2'] = r2(prog, rep); c['R3'] = r3(prog, rep); c['R4'] = r4(prog, rep); c['R5'] = r5(prog, rep) + r5b(prog, rep)
+    c['R1'] = r1(prog, rep); c['R2'] = r2(prog, rep); c['R3'] = r3(prog, rep); c['R4'] = r4(prog, rep); c['R5'] = r5(prog, rep) + r5b(prog, rep); c['R6'] = r6(prog, rep)
     rep.setcount('translation_units', len(prog.modules)); rep.setcount('functions_analysed', len(fns(prog)))
     for k_, v in c.items(): rep.setcount('instances_' + k_, v)
     rep.floor('C18.R1', 8, 'census, 3 live getenv, format census, 2 computed formats + skeleton property lines, fork, 2 wait')
@@ -629,6 +843,7 @@ def run(ctx):
     rep.floor('C18.R3', 10, '3 bucket arrays: 7 uses in sym.c + 4 table-parameter uses in addsym/findsym')
     rep.floor('C18.R4', 24, '11 nxt[] loads in gentabs/genctbl/mkctbl, 16 chk[] stores, 2 chk allocations')
     rep.floor('C18.R5', 2, 'env.use_stdout is read in check_options() and flexend()')
+    rep.floor('C18.R6', 8, 'slot-0 readers today: base x3, dfaacc x2 (genctbl/mkctbl/mkssltbl), chk x2, nxt x2')
     rep.undecided += ['independence of the output from the contents of fresh heap memory in general (only nxt[]/chk[] are covered)',
                       'that chk[e] != 0 implies nxt[e] was assigned for the slot values involved (value-level; the pairing rule and the reviewed markers cover the stores)',
                       'locale- and m4-version dependence of the output; byte equality of repeated runs; the stage1/stage2 bootstrap comparison',
